@@ -5,34 +5,47 @@
 (* before a thread waits for a latch, while a thread that holds latches may come back for the pager lock.                  *)
 (* TLC checks that every statement finishes (no deadlock) for all interleavings of a few threads and pages; holding the     *)
 (* pager lock across the latch wait (deviation PagerHeldAcrossLatch) must produce a deadlock.                               *)
+(* Latches are writer-preferring (parking_lot): a writer that waits for a page keeps new readers out (wq).  A reader may     *)
+(* latch a page it already holds again (a scan keeps its cursor's leaf latched and latches it once more to decode a row):    *)
+(* that second acquisition must not queue behind a waiting writer (read_arc_recursive) - when it does (deviation             *)
+(* RecursiveReadQueuesBehindWriter, the code before fix 0f47055) scan and writer wait for each other for ever.               *)
 EXTENDS Integers, Sequences, FiniteSets, TLC
 CONSTANTS Threads, Pages, Dev
-VARIABLES pager, readers, writer, pc, plan, held
-lvars == <<pager, readers, writer, pc, plan, held>>
+VARIABLES pager, readers, writer, pc, plan, held, wq
+lvars == <<pager, readers, writer, pc, plan, held, wq>>
 Modes == {"r", "w"}
 \* a statement latches an ascending run of pages (root towards leaves), each in some mode
-Plans == {s \in UNION {[1..n -> Pages \X Modes] : n \in 1..2} : \A i \in 1..(Len(s) - 1) : s[i][1] < s[i + 1][1]}
+\* ... or the same page twice in read mode (re-latch)
+Plans == {s \in UNION {[1..n -> Pages \X Modes] : n \in 1..2} :
+            \A i \in 1..(Len(s) - 1) : s[i][1] < s[i + 1][1] \/ (s[i][1] = s[i + 1][1] /\ s[i][2] = "r" /\ s[i + 1][2] = "r")}
 Init == /\ pager = 0 /\ readers = [p \in Pages |-> {}] /\ writer = [p \in Pages |-> 0]
         /\ pc = [t \in Threads |-> "want"] /\ plan \in [Threads -> Plans] /\ held = [t \in Threads |-> {}]
-Compatible(t, p, m) == IF m = "r" THEN writer[p] \in {0, t} ELSE writer[p] \in {0, t} /\ readers[p] \subseteq {t}
+        /\ wq = [p \in Pages |-> {}]
+\* a fresh read queues behind waiting writers; a recursive one does not (unless the deviation is on)
+Recursive(t, p) == t \in readers[p] /\ "RecursiveReadQueuesBehindWriter" \notin Dev
+Compatible(t, p, m) == IF m = "r" THEN writer[p] \in {0, t} /\ (wq[p] \ {t} = {} \/ Recursive(t, p))
+                       ELSE writer[p] \in {0, t} /\ readers[p] \subseteq {t}
 Grant(t, p, m) == /\ IF m = "r" THEN readers' = [readers EXCEPT ![p] = @ \cup {t}] /\ UNCHANGED writer
                      ELSE writer' = [writer EXCEPT ![p] = t] /\ UNCHANGED readers
                   /\ held' = [held EXCEPT ![t] = @ \cup {p}]
                   /\ plan' = [plan EXCEPT ![t] = Tail(@)]
-TakePager(t) == pc[t] = "want" /\ pager = 0 /\ pager' = t /\ pc' = [pc EXCEPT ![t] = "inpager"] /\ UNCHANGED <<readers, writer, plan, held>>
+                  /\ wq' = [wq EXCEPT ![p] = @ \ {t}]
+TakePager(t) == pc[t] = "want" /\ pager = 0 /\ pager' = t /\ pc' = [pc EXCEPT ![t] = "inpager"] /\ UNCHANGED <<readers, writer, plan, held, wq>>
 \* the frame is fetched; the guard is dropped before the latch is requested
 LeavePager(t) == /\ "PagerHeldAcrossLatch" \notin Dev
                  /\ pc[t] = "inpager" /\ pager' = 0 /\ pc' = [pc EXCEPT ![t] = "latch"] /\ UNCHANGED <<readers, writer, plan, held>>
+                 \* a writer that has to wait is queued from now on
+                 /\ wq' = IF Head(plan[t])[2] = "w" THEN [wq EXCEPT ![Head(plan[t])[1]] = @ \cup {t}] ELSE wq
 Latch(t) == LET p == Head(plan[t])[1]  m == Head(plan[t])[2] IN
             /\ pc[t] = IF "PagerHeldAcrossLatch" \in Dev THEN "inpager" ELSE "latch"
             /\ Compatible(t, p, m) /\ Grant(t, p, m)
             /\ pager' = IF "PagerHeldAcrossLatch" \in Dev THEN 0 ELSE pager
             /\ pc' = [pc EXCEPT ![t] = IF Len(plan[t]) > 1 THEN "want" ELSE "work"]
 \* with its latches held the statement goes back to the pager (allocation, overflow pages, the log) and then finishes
-Work(t) == pc[t] = "work" /\ pager = 0 /\ pager' = t /\ pc' = [pc EXCEPT ![t] = "finish"] /\ UNCHANGED <<readers, writer, plan, held>>
+Work(t) == pc[t] = "work" /\ pager = 0 /\ pager' = t /\ pc' = [pc EXCEPT ![t] = "finish"] /\ UNCHANGED <<readers, writer, plan, held, wq>>
 Finish(t) == /\ pc[t] = "finish" /\ pager' = 0 /\ pc' = [pc EXCEPT ![t] = "done"]
              /\ readers' = [p \in Pages |-> readers[p] \ {t}] /\ writer' = [p \in Pages |-> IF writer[p] = t THEN 0 ELSE writer[p]]
-             /\ held' = [held EXCEPT ![t] = {}] /\ UNCHANGED plan
+             /\ held' = [held EXCEPT ![t] = {}] /\ UNCHANGED <<plan, wq>>
 AllDone == (\A t \in Threads : pc[t] = "done") /\ UNCHANGED lvars
 Next == (\E t \in Threads : TakePager(t) \/ LeavePager(t) \/ Latch(t) \/ Work(t) \/ Finish(t)) \/ AllDone
 Spec == Init /\ [][Next]_lvars /\ WF_lvars(Next)
